@@ -16,7 +16,10 @@ M("c01-drop-their-state", "C01,C17", A + "http11.py",
   "                self._h11_state.our_state is h11.DONE", None)
 M("c01-new-available", "C01", A + "http11.py", "return self._state == HTTPConnectionState.IDLE\n\n    def has_expired",
   "return self._state in (HTTPConnectionState.IDLE, HTTPConnectionState.NEW)\n\n    def has_expired", "C01.R4")
-M("c01-demux-own-id", "C01,C12", A + "http2.py", "self._events[event.stream_id].append(event)", "self._events[stream_id].append(event)", None)
+M("c01-demux-own-id", "C01,C12", A + "http2.py", "stream_events = self._events.get(event.stream_id)", "stream_events = self._events.get(stream_id)", None)
+M("c08-events-check-then-act", "C08", A + "http2.py", "                        stream_events = self._events.get(event.stream_id)\n                        if stream_events is not None:\n                            stream_events.append(event)\n",
+  "                        if event.stream_id in self._events:\n                            self._events[event.stream_id].append(event)\n", "C08.R11")   # reverts fix 7a268ce (KF31)
+M("c02-events-truthy-guard-drops-first", "C02,C12", A + "http2.py", "                        if stream_events is not None:\n", "                        if stream_events:\n", None)
 M("c01-h2-available-error", "C01", A + "http2.py", "            and not self._connection_error\n", "", "C01.R4")
 M("c01-pool-no-origin-filter", "C01", A + "connection_pool.py", "if connection.can_handle_request(origin) and connection.is_available()", "if connection.is_available()", "C01.R5")
 M("c01-else-no-close", "C01", A + "http11.py", "            else:\n                await self.aclose()\n\n    # Once the connection", "            else:\n                pass\n\n    # Once the connection", "C01.R2")
